@@ -268,7 +268,14 @@ class Runner:
             op = self.objs[opi]
             outer_bo = self.m.current_basis_operator
             ctx = qr.eigenbasis_of(op)
-            with ctx:
+            try:
+              with ctx:
+                # the two fields Model/C04.v does not carry (Proofs/C04gen.v: Flag, cbo): inside, the flag is set and the
+                # operator of the context is the current one
+                if not self.m._in_eigenbasis_of_context or self.m.current_basis_operator is not op:
+                    self.problems.append(("context_fields_inside", "inside a context _in_eigenbasis_of_context is %r and "
+                                          "current_basis_operator is %s the operator of the context"
+                                          % (self.m._in_eigenbasis_of_context, "" if self.m.current_basis_operator is op else "not")))
                 SS = np.array(self.m.basis_transformations[-1])
                 self.S[id(s)] = [SS, False]
                 if not np.array_equal(np.abs(SS), np.round(np.abs(SS))) or not np.array_equal(np.abs(SS).sum(axis=0), np.ones(self.n)):
@@ -283,9 +290,14 @@ class Runner:
                         self.problems.append(("not_diagonal_ascending", "inside its own context operator %d is not diagonal with "
                                               "ascending eigenvalues: diagonal %s" % (opi, np.real(np.diag(dd)).tolist())))
                 self.run(body)
-            if self.m.get_current_basis() != 0 and self.m.current_basis_operator is not outer_bo:
-                self.problems.append(("current_basis_operator", "after leaving a nested context current_basis_operator is %r, "
-                                      "not the operator of the enclosing context" % (self.m.current_basis_operator,)))
+            finally:
+                # ... and put back when the context is left, normally or by an exception
+                if self.m.current_basis_operator is not outer_bo:
+                    self.problems.append(("current_basis_operator", "after leaving a context current_basis_operator is %r, "
+                                          "not the operator of the enclosing context" % (self.m.current_basis_operator,)))
+                if bool(self.m._in_eigenbasis_of_context) != (self.m.get_current_basis() != 0):
+                    self.problems.append(("context_flag", "after leaving a context _in_eigenbasis_of_context is %r at basis %d"
+                                          % (self.m._in_eigenbasis_of_context, self.m.get_current_basis())))
         elif k == "raise":
             raise Marker()
         elif k == "try":
@@ -592,7 +604,14 @@ def main():
                        "eigh/inv are oracles: the model is handed the diagonaliser the implementation used",
                        "objects protected inside a context keep their data by design (re-tagged, not transformed): excluded from the restoration claim",
                        "DensityMatrixEvolution, StateVectorEvolution, relaxation tensors in operator form are covered by the per-class action laws, "
-                       "not by the program runner"]
+                       "not by the program runner",
+                       "static tie of the bookkeeping (GenC04b.v, harness/translate_c04.py): Python objects are labels into a heap; a local bound "
+                       "to manager.basis_registered[e] is an alias, re-read at every use; `for op in lst` iterates the list as it is when the loop "
+                       "starts (its body appends only to the list of another basis id); numpy.dot / numpy.linalg.inv / the unit matrix / "
+                       "transform(S) / transform(S, inv=S1) are the operations gmul / ginv / gid / act / act2 of an abstract group action "
+                       "(the transform() loop nests themselves: GenC04.v), eigh is an oracle; the units conversion inside managed_array_property "
+                       "(C05) and the array / shape validation of the setters are outside the model; SuperOperator.apply and the construction "
+                       "of a new object (class defaults, tagging block, self.data = data) are matched as whole statement sequences"]
     chk.prove()
     import translate
     translate.static_tie(cm, chk, PID, cm.REPO)      # second, static tie: the loop nests of the tensor basis change regenerated from the source
